@@ -762,10 +762,16 @@ def _k_decimal_check_index(family, case, disc):
             and all(V.is_null(v) or (isinstance(v, str) and v.lower() == "nan") for v in _elems(case)))
 
 
-@known.finding("C10/polars-nulls-listed-once-any-element-fails")
+@known.finding("C10/polars-unsupported-cast-fallback-lists-every-row")
 def _k_pl_nulls(family, case, disc):
+    """Residual of the (fixed) 'nulls listed once any element fails': when polars cannot cast the source dtype to the
+    target at all (String->Boolean, Boolean->Enum/Categorical, ...) the 'all rows are failure cases' fallback still lists
+    the nulls.  Trigger: every non-null element fails on its own (the whole cast is unsupported), nulls present."""
+    d = disc.detail if isinstance(disc.detail, dict) else {}
+    ok = d.get("singleton_ok") or []
     return (family == "polars" and disc.kind.startswith("null-listed-as-failure-case:pl:")
-            and any(c is None for c in case["cells"]))
+            and any(c is None for c in case["cells"])
+            and all(v is None or v is False for v in ok) and any(v is False for v in ok))
 
 
 @known.finding("C10/polars-category-try-coerce-typeerror")
